@@ -318,21 +318,25 @@ Fixpoint run_until (cap extra : nat) (s : zsig) : list (list Z) * zsig :=
     end
   end.
 
-Fixpoint run_take (cap extra : nat) (n : nat) (s : zsig) : list (list Z) * zsig :=
+(* take(n): the counter is a Z (the recursion is on the number of observed calls), so that take(2^32), take(usize::MAX)
+   run as they are; SigRunNormProofs.take_counter ties it to the nat counter of Sig.take_next.  Before every call of
+   next the harness reports size_hint() and ExactSizeIterator::len() as [17; lower; upper; len] (upper = -1 for None):
+   all three are what is left of n *)
+Definition take_live (n : Z) : bool := 0 <? n.
+
+Fixpoint run_take (cap extra : nat) (n : Z) (s : zsig) : list (list Z) * zsig :=
   match cap with
   | O => ([], s)
   | S cap' =>
-    match n with
-    | S n' =>
+    if take_live n then
       let ev := ztrace s in
       let (x, s') := znext s in
-      let (l, s'') := run_take cap' extra n' s' in ((13 :: enc_frame x ++ enc_events ev) :: l, s'')
-    | O =>
+      let (l, s'') := run_take cap' extra (n - 1) s' in ([17; n; n; n] :: (13 :: enc_frame x ++ enc_events ev) :: l, s'')
+    else
       match extra with
-      | O => ([[14]], s)
-      | S extra' => let (l, s'') := run_take cap' extra' O s in ([14] :: l, s'')
+      | O => ([[17; 0; 0; 0]; [14]], s)
+      | S extra' => let (l, s'') := run_take cap' extra' n s in ([17; 0; 0; 0] :: [14] :: l, s'')
       end
-    end
   end.
 
 (* interleaved samples: [15; sample; events] = Some, [14; events] = None; the events of a call
@@ -360,7 +364,7 @@ Fixpoint run_inter (cap extra : nat) (st : inter zframe Z Z Z) : list (list Z) *
   end.
 
 (* ---- the iterators as values: clone = the same state, nth = repeated next ---- *)
-Inductive zit := ItUntil (s : zsig) | ItTake (n : nat) (s : zsig) | ItInter (st : inter zframe Z Z Z).
+Inductive zit := ItUntil (s : zsig) | ItTake (n : Z) (s : zsig) | ItInter (st : inter zframe Z Z Z).
 
 Definition it_sig (it : zit) : zsig :=
   match it with ItUntil s => s | ItTake _ s => s | ItInter st => isig st end.
@@ -375,10 +379,9 @@ Definition it_step (it : zit) : option (list Z) * list (event zframe) * zit :=
     | (None, s') => (None, ev, ItUntil s')
     end
   | ItTake n s =>
-    match n with
-    | O => (None, [], it)
-    | S n' => let ev := ztrace s in let (x, s') := znext s in (Some (13 :: enc_frame x), ev, ItTake n' s')
-    end
+    if take_live n
+    then let ev := ztrace s in let (x, s') := znext s in (Some (13 :: enc_frame x), ev, ItTake (n - 1) s')
+    else (None, [], it)
   | ItInter st =>
     let ev := inter_trace st in
     match znext_sample 2 st with
@@ -436,7 +439,7 @@ Definition run_op (bases : list zsig) (o : zop) : list (list Z) * list zsig :=
     ((10 :: enc_events (own_build_trace t)) :: l ++ [enc_counts s'], hand_back t s' bases)
   | OTake n cap extra t =>
     let s := build bases dummy t in
-    let (l, s') := run_take (Z.to_nat cap) (Z.to_nat extra) (Z.to_nat n) s in
+    let (l, s') := run_take (Z.to_nat cap) (Z.to_nat extra) n s in
     ((10 :: enc_events (own_build_trace t)) :: l ++ [enc_counts s'], hand_back t s' bases)
   | OInter cap extra t =>
     let s := build bases dummy t in
@@ -457,7 +460,7 @@ Definition run_op (bases : list zsig) (o : zop) : list (list Z) * list zsig :=
     let s := build bases dummy t in
     let it0 := match kind with
                | 0 => ItUntil s
-               | 1 => ItTake (Z.to_nat n) s
+               | 1 => ItTake n s
                | _ => ItInter {| isig := s; icur := None |}
                end in
     let (l0, it1) := it_pre (Z.to_nat pre) it0 in
@@ -483,6 +486,55 @@ Definition run_bases (ts : list ztree) : list (list Z) * list zsig :=
 
 End Inst.
 
+(* ---- delay lengths beyond the run (2^32, usize::MAX ...) ----
+   [Delay k] of the proved model counts in unary, so a case is NORMALISED before it is run: every delay length is
+   clamped to [norm_bound ops] = 1 + an upper bound of the number of calls of Signal::next the whole case can make on
+   any one signal (bases live across ops, so the bound is summed over the ops).  A delay at or above the bound never
+   finishes its silence within the case, and the clamped one does not either: SigRunNormProofs.run_ops_norm shows
+   that running the normalised case IS running the case ([run_case_norm c = run_case c], every case, every
+   instance), from SigNormProofs.drel_obs / drel_step.  The generator sends the true lengths. *)
+Fixpoint clamp_tree (c : Z) (t : ztree) : ztree :=
+  match t with
+  | TMap id fnid k t => TMap id fnid k (clamp_tree c t)
+  | TZip id fnid a b => TZip id fnid (clamp_tree c a) (clamp_tree c b)
+  | TAdd a b => TAdd (clamp_tree c a) (clamp_tree c b)
+  | TMul a b => TMul (clamp_tree c a) (clamp_tree c b)
+  | TScale amp t => TScale amp (clamp_tree c t)
+  | TOffset off t => TOffset off (clamp_tree c t)
+  | TScalePC amp t => TScalePC amp (clamp_tree c t)
+  | TOffsetPC amp t => TOffsetPC amp (clamp_tree c t)
+  | TClip th t => TClip th (clamp_tree c t)
+  | TInspect id t => TInspect id (clamp_tree c t)
+  | TDelay k t => TDelay (Z.min k c) (clamp_tree c t)
+  | TIter _ _ | TSamples _ _ | TEq | TGen _ _ | TGenMut _ _ | TRef _ | TArg => t
+  end.
+
+Definition clamp_op (c : Z) (o : zop) : zop :=
+  match o with
+  | ONext k t => ONext k (clamp_tree c t)
+  | OUntil cap extra t => OUntil cap extra (clamp_tree c t)
+  | OTake n cap extra t => OTake n cap extra (clamp_tree c t)
+  | OInter cap extra t => OInter cap extra (clamp_tree c t)
+  | OLift id l cap extra t => OLift id l cap extra (clamp_tree c t)
+  | OSigClone j k t => OSigClone j k (clamp_tree c t)
+  | OIter kind n pre mode k cap extra t => OIter kind n pre mode k cap extra (clamp_tree c t)
+  end.
+
+(* calls of Signal::next one op can make on one signal (an interleaved-sample call refills at most twice: fuel 2) *)
+Definition op_budget (o : zop) : nat :=
+  match o with
+  | ONext k _ => Z.to_nat k
+  | OUntil cap _ _ | OTake _ cap _ _ | OLift _ _ cap _ _ => Z.to_nat cap
+  | OInter cap _ _ => 2 * Z.to_nat cap
+  | OSigClone j k _ => Z.to_nat j + Z.to_nat k
+  | OIter _ _ pre _ k cap _ _ => 2 * Z.to_nat pre + (2 * S (Z.to_nat k) + 2 * Z.to_nat cap)
+  end.
+
+Fixpoint ops_budget (ops : list zop) : nat :=
+  match ops with [] => O | o :: r => (op_budget o + ops_budget r)%nat end.
+
+Definition norm_bound (ops : list zop) : Z := Z.of_nat (S (ops_budget ops)).
+
 Inductive zcase := ZCase (fm : fmt) (bases : list ztree) (ops : list zop).
 
 Definition run_case (c : zcase) : list (list Z) :=
@@ -490,7 +542,14 @@ Definition run_case (c : zcase) : list (list Z) :=
   | ZCase fm ts ops => let (l, bases) := run_bases (ops_of fm) ts in l ++ run_ops (ops_of fm) bases ops
   end.
 
+Definition norm_case (c : zcase) : zcase :=
+  match c with
+  | ZCase fm ts ops => let b := norm_bound ops in ZCase fm (map (clamp_tree b) ts) (map (clamp_op b) ops)
+  end.
+
+Definition run_case_norm (c : zcase) : list (list Z) := run_case (norm_case c).
+
 Definition zll_eqb (a b : list (list Z)) : bool :=
   if list_eq_dec (list_eq_dec Z.eq_dec) a b then true else false.
 
-Definition check (c : zcase * list (list Z)) : bool := zll_eqb (run_case (fst c)) (snd c).
+Definition check (c : zcase * list (list Z)) : bool := zll_eqb (run_case_norm (fst c)) (snd c).
